@@ -656,4 +656,139 @@ mod tests {
 #[allow(unused_imports, missing_docs, dead_code, unreachable_pub)]
 pub mod verif {
     use super::*;
+
+    use crate::events::{EventChannel, EventSubscriber};
+
+    /// Observable state of one tracked peer.
+    #[derive(Debug, Clone)]
+    pub struct PeerView {
+        pub id: PeerId,
+        pub connections: Vec<(ConnectionId, Option<Duration>)>,
+        pub protected: Vec<u32>,
+        pub trusted: bool,
+        pub archival: bool,
+        pub full: bool,
+        pub node_kind: &'static str,
+        pub best_ping: Option<Duration>,
+        /// `Some(elapsed)` when `disconnected_at` is set
+        pub disconnected_for: Option<Duration>,
+    }
+
+    /// Thin public wrapper around the crate-private [`PeerTracker`].
+    pub struct Tracker {
+        inner: PeerTracker,
+        events: EventSubscriber,
+        _channel: EventChannel,
+    }
+
+    impl Tracker {
+        pub fn new() -> Self {
+            let channel = EventChannel::new();
+            let events = channel.subscribe();
+            let inner = PeerTracker::new(channel.publisher());
+            Tracker { inner, events, _channel: channel }
+        }
+        pub fn expired_after() -> Duration {
+            EXPIRED_AFTER
+        }
+        pub fn info(&self) -> PeerTrackerInfo {
+            self.inner.info()
+        }
+        pub fn info_watcher(&self) -> watch::Receiver<PeerTrackerInfo> {
+            self.inner.info_watcher()
+        }
+        pub fn is_connected(&self, peer_id: &PeerId) -> bool {
+            self.inner.is_connected(peer_id)
+        }
+        pub fn is_protected(&self, peer_id: &PeerId) -> bool {
+            self.inner.is_protected(peer_id)
+        }
+        pub fn is_protected_with_tag(&self, peer_id: &PeerId, tag: u32) -> bool {
+            self.inner.is_protected_with_tag(peer_id, tag)
+        }
+        pub fn add_peer_id(&mut self, peer_id: &PeerId) -> bool {
+            self.inner.add_peer_id(peer_id)
+        }
+        pub fn set_trusted(&mut self, peer_id: &PeerId, is_trusted: bool) {
+            self.inner.set_trusted(peer_id, is_trusted)
+        }
+        pub fn protect(&mut self, peer_id: &PeerId, tag: u32) -> bool {
+            self.inner.protect(peer_id, tag)
+        }
+        pub fn unprotect(&mut self, peer_id: &PeerId, tag: u32) -> bool {
+            self.inner.unprotect(peer_id, tag)
+        }
+        pub fn protected_len(&self, tag: u32) -> usize {
+            self.inner.protected_len(tag)
+        }
+        pub fn add_connection(&mut self, peer_id: &PeerId, connection_id: ConnectionId) {
+            self.inner.add_connection(peer_id, connection_id)
+        }
+        pub fn remove_connection(&mut self, peer_id: &PeerId, connection_id: ConnectionId) {
+            self.inner.remove_connection(peer_id, connection_id)
+        }
+        pub fn on_agent_version(&mut self, peer_id: &PeerId, agent_version: &str) {
+            self.inner.on_agent_version(peer_id, agent_version)
+        }
+        pub fn on_ping_event(&mut self, ev: &ping::Event) {
+            self.inner.on_ping_event(ev)
+        }
+        pub fn mark_as_archival(&mut self, peer_id: &PeerId) {
+            self.inner.mark_as_archival(peer_id)
+        }
+        pub fn connections(&self, peer_id: &PeerId) -> Vec<ConnectionId> {
+            self.inner.connections(peer_id).collect()
+        }
+        pub fn all_connections(&self) -> Vec<(PeerId, ConnectionId)> {
+            self.inner.all_connections().map(|(p, c)| (*p, c)).collect()
+        }
+        pub fn gc(&mut self) {
+            self.inner.gc()
+        }
+        /// The raw `protect_counter` map (zero entries included).
+        pub fn protect_counter(&self) -> Vec<(u32, usize)> {
+            self.inner.protect_counter.iter().map(|(k, v)| (*k, *v)).collect()
+        }
+        /// Lets `dur` of time pass for every disconnected peer (moves `disconnected_at` back).
+        pub fn advance_time(&mut self, dur: Duration) {
+            for peer in self.inner.peers.values_mut() {
+                if let Some(tm) = peer.disconnected_at {
+                    peer.disconnected_at = Some(tm.checked_sub(dur).expect("instant underflow"));
+                }
+            }
+        }
+        pub fn peers(&self) -> Vec<PeerView> {
+            self.inner
+                .peers()
+                .map(|p| PeerView {
+                    id: *p.id(),
+                    connections: p.connections.iter().map(|(c, i)| (*c, i.ping)).collect(),
+                    protected: p.protected.iter().copied().collect(),
+                    trusted: p.is_trusted(),
+                    archival: p.is_archival(),
+                    full: p.is_full(),
+                    node_kind: match p.node_kind() {
+                        NodeKind::Unknown => "unknown",
+                        NodeKind::Bridge => "bridge",
+                        NodeKind::Full => "full",
+                        NodeKind::Light => "light",
+                    },
+                    best_ping: p.best_ping(),
+                    disconnected_for: p.disconnected_at.map(|t| t.elapsed()),
+                })
+                .collect()
+        }
+        /// Drains `PeerConnected` (`true`) / `PeerDisconnected` (`false`) events: (connected, id, trusted).
+        pub fn drain_events(&mut self) -> Vec<(bool, PeerId, bool)> {
+            let mut out = vec![];
+            while let Ok(info) = self.events.try_recv() {
+                match info.event {
+                    NodeEvent::PeerConnected { id, trusted } => out.push((true, id, trusted)),
+                    NodeEvent::PeerDisconnected { id, trusted } => out.push((false, id, trusted)),
+                    _ => {}
+                }
+            }
+            out
+        }
+    }
 }
